@@ -5,6 +5,13 @@ import json
 CLAIMED = {
  "C01": ("seqx", "model_checking", "Bounded exhaustive exploration of the real code: every history up to the stated depth over forced-collision alphabets (5 profiles: file-backed core with Flush/Evict/Reopen and every random eviction branch, memory-only, two collections, boundary arguments, Set/Get wrappers with enumerated random priorities); every return value and a full public-API read battery at the end of every history are compared with a plain-map reference model. Tests sample a handful of scripts; this covers all histories within the bound.", "5.C01", "explicit-state search over operation histories of the implementation against a reference map"),
 }
+CLAIMED.update({
+ "C02": ("seqx", "model_checking", "Every history up to the depth bound over mutations on two collections, collection creation/replacement/removal, Evict, Flush and Reopen-and-continue; at the end of every history a byte copy of the file is opened in a fresh Store and its complete public-API read battery must equal the model's newest durable state (never anything newer). Flush positions are not sampled: Flush is a letter of the alphabet.", "5.C02", "explicit-state search over operation histories with a reopen-a-copy oracle at every state"),
+ "C04": ("seqx", "model_checking", "Every history up to the depth bound interleaving mutations, evictions, flushes, collection removal/replacement and Close of the original with creation, reading, FlushRevert and closing of snapshots and snapshots of snapshots; every open snapshot must equal the model copy taken at its creation, the original must equal the model, and the file monitor flags any write/truncate issued by a snapshot letter.", "5.C04", "explicit-state search over operation histories against per-snapshot model copies"),
+ "C08": ("seqx", "model_checking", "Every history up to the depth bound over Set/Delete, SetCollection, Flush, FlushRevert and Reopen (0, 1, many flushes; reverts past the first flush; unflushed changes pending; across re-opens) plus a memory-only profile. Termination is decided by a per-call step budget on the instrumented synchronisation/atomic/file operations, not by a wall clock.", "5.C08", "explicit-state search over operation histories with a flush-stack model and a step-budget hang oracle"),
+ "C10": ("seqx", "model_checking", "Every history up to the depth bound over two stores sharing the process-wide free lists, with snapshots, replaced/recreated collections, an iterator left open across operations and mutations nested inside visitor callbacks; oracle 1 inspects the free list directly (no freed node reachable from an open handle), oracle 2 forces reuse of everything freed and then compares every open handle and every open iterator with the model.", "5.C10", "explicit-state search over multi-store histories with direct free-list inspection and forced reuse"),
+ "C12": ("seqx", "model_checking", "Every history up to the depth bound over SetCollection (new/existing names, three comparators), RemoveCollection (present/absent), mutations through the registered handle, Flush, Reopen and a snapshot; names, contents, isolation of other collections and of the snapshot, and durability-at-Flush-only are compared with the model at the end of every history.", "5.C12", "explicit-state search over operation histories against a reference map of collections"),
+})
 NA_REASON = "check not built yet in this round (engine under construction); will be claimed when its check exists"
 ALL = ["C%02d" % i for i in range(1, 20)]
 m = {
